@@ -28,14 +28,10 @@ theorem u16_ofNat_toNat (n : Nat) (h : n < 65536) : (UInt16.ofNat n).toNat = n :
 
 theorem gstr_str (s r : Bytes) (h : s.length < 65536) : gstr (Spec.str s ++ r) = some (s, r) := by
   have h2 := u16_ofNat_toNat s.length h
-  have ht : (Spec.str s ++ r).take 2 = p16 (UInt16.ofNat s.length) := by
-    simp only [Spec.str, List.append_assoc]; exact List.take_left' (p16_length _)
-  have hd : (Spec.str s ++ r).drop 2 = s ++ r := by
-    simp only [Spec.str, List.append_assoc]; exact List.drop_left' (p16_length _)
-  have hl : ¬ (Spec.str s ++ r).length < 2 := by simp [Spec.str]
-  unfold gstr
-  rw [if_neg hl, ht, hd]
-  simp [h2]
+  have := le16_p16 (UInt16.ofNat s.length)
+  rw [h2] at this
+  simp only [Spec.str, p16, List.cons_append, List.nil_append, gstr, h2, this]
+  simp
 
 theorem gqid_qid (q : Qid) (r : Bytes) : gqid (Spec.qid q ++ r) = .ok (q, r) := by
   simp [gqid, Spec.qid, List.append_assoc, gint8_p8, gint32_p32, gint64_p64]
